@@ -66,6 +66,9 @@ fn negation_tree<T: Scalar>(kind: Kind, n: usize, alpha: &[f64], depth: usize, s
         b: Dyn<T>,
         tainted: bool,
     }
+    if build_or_report::<T>("C05", &spec, sink).is_none() {
+        return;
+    }
     let root = S { a: build::<T>(&spec), b: build::<T>(&spec), tainted: false };
     st.configs += 1;
     tree::<T, S<T>>(
